@@ -64,7 +64,8 @@ def main():
                 print(mid, 'STALE', flush=True)
                 continue
             open(full, 'w').write(text.replace(old, new, 1))
-            env = dict(os.environ, VERIF_REPO=wt, VERIF_RUNS=str(runs), VERIF_DET='0', VERIF_SCRATCH=scratch)
+            env = dict(os.environ, VERIF_REPO=wt, VERIF_RUNS=str(runs), VERIF_DET='0', VERIF_SCRATCH=scratch,
+                       VERIF_EVIDENCE_DIR=os.path.join(scratch, 'evidence'), VERIF_REPLAY_DIR=os.path.join(scratch, 'replays'))
             # evidence of these development runs must not overwrite the registered evidence files
             proc = subprocess.run([os.path.join(HERE, 'check'), check], env=env, capture_output=True, text=True, timeout=3000)
             lines = [l for l in proc.stdout.splitlines() if l.startswith(('VIOLATION', '  invariant='))]
